@@ -313,7 +313,9 @@ type fakeRows struct {
 	closed bool
 }
 
-func (r *fakeRows) Columns() []string { return r.script.Cols }
+// Columns hands out a copy: what the caller does with the slice must not change the script (nor what the
+// harness reports as the columns the driver returned).
+func (r *fakeRows) Columns() []string { return append([]string(nil), r.script.Cols...) }
 
 func (r *fakeRows) Close() error {
 	db := r.stmt.conn.db
